@@ -275,9 +275,16 @@ func runProp[C any](t *testing.T, prop string, gen func(*rapid.T) C, check func(
 	}
 	rec = newRecorder(prop)
 	defer finishProp(t)
+	inflight := os.Getenv("VERIF_INFLIGHT")
 	rapid.Check(t, func(rt *rapid.T) {
 		c := gen(rt)
 		info := &Info{}
+		if inflight != "" {
+			// a fatal runtime error (stack overflow, out of memory) cannot be recovered:
+			// leave the case on disk so that the driver can report it
+			b, _ := json.Marshal(replayFile{Property: prop, Kind: "fatal-crash", Msg: "the process died while this case was being checked", Case: mustJSON(c)})
+			_ = os.WriteFile(inflight, b, 0o644)
+		}
 		f := safely(check, c, info)
 		rec.note(func() []byte { return mustJSON(c) }, info, f)
 		if f == nil {
